@@ -202,6 +202,53 @@ pub fn check_case(c: &Case, solver: bool) -> Check {
     Ok(())
 }
 
+/// names bound by quantifiers in the emitted text (the generator's copies of the vertices)
+pub fn bound_names(text: &str) -> Vec<String> {
+    fn go(a: &crate::rast::RAst, out: &mut Vec<String>) {
+        if let crate::rast::RAst::Quant(_, ns, _) = a {
+            for n in ns {
+                if !out.contains(n) {
+                    out.push(n.clone());
+                }
+            }
+        }
+        for c in a.children() {
+            go(c, out);
+        }
+    }
+    let mut out = Vec::new();
+    if let Ok(p) = rparse::parse_text(text.as_bytes()) {
+        go(&p.ast, &mut out);
+    }
+    out
+}
+
+/// Adversarial feedback: take names the generator itself invented for its bound copies
+/// and make them real vertices of a new graph (they are identifiers, so inside the domain).
+pub fn feedback(c: &Case, t: &mut Tape) -> Option<Case> {
+    let text = run_generator(c).ok()?;
+    let vs = c.vertices();
+    let fresh: Vec<String> = bound_names(&text).into_iter().filter(|n| !vs.contains(n)).collect();
+    if fresh.is_empty() || vs.is_empty() {
+        return None;
+    }
+    let mut edges = c.edges.clone();
+    let take = 1 + t.choose(std::cmp::min(2, fresh.len()));
+    for k in 0..take {
+        let n = fresh[t.choose(fresh.len())].clone();
+        let partner = vs[(k + t.choose(vs.len())) % vs.len()].clone();
+        edges.push((n.clone(), partner.clone()));
+        if t.flag() {
+            edges.push((partner, n));
+        }
+    }
+    Some(Case {
+        edges,
+        undirected: c.undirected,
+        all: c.all,
+    })
+}
+
 pub const POOL: [&str; 9] = ["a", "b", "c", "x1", "n'", "v_a", "v0", "_q", "\u{e9}"];
 
 fn gen_case(t: &mut Tape, maxv: usize) -> Case {
@@ -282,7 +329,7 @@ fn record(c: &Case, st: &mut Stats) {
 pub fn run(ctx: &mut Ctx) -> Result<(), Violation> {
     ctx.rule = "cases = (edge list over <= 5 (thorough 6) identifier-named vertices from the pool a b c x1 n' v_a v0 _q e-acute: simple, symmetric, with duplicates, one-directional edges, self loops, complete and empty graphs; -u; -a). The max_clique_gen binary built from the working tree is run on the CSV (stdout and output file must agree). \
                 Oracle: brute force over all vertex subsets: cliques w.r.t. adjacency (-u: either direction; otherwise both), maximum ones or all with -a. The emitted text, parsed by the reference parser and evaluated by the reference truth-table semantics (<= 14 names incl. the bound copies), must be true on exactly that family (vertices not mentioned unconstrained); a sample is also solved with `rsbdd -t -ft`. \
-                Thorough adds all 512 directed graphs on 3 vertices x flags. Non-trivial = graph with >= 3 vertices that is neither complete nor empty; distinct by (edges, flags)."
+                A feedback stage turns the names the generator invented for its bound copies into real vertices of a new graph (up to three rounds). Thorough adds all 512 directed graphs on 3 vertices x flags. Non-trivial = graph with >= 3 vertices that is neither complete nor empty; distinct by (edges, flags)."
         .to_string();
     ctx.assume("vertex names are identifiers of the rsbdd language (keywords and names with whitespace are outside the property)");
 
@@ -361,6 +408,29 @@ pub fn run(ctx: &mut Ctx) -> Result<(), Violation> {
         check_case(&c, solver)
     });
     ctx.stage("random-graphs", false, r)?;
+
+    // feedback: the generator's own copy names become vertices, up to three rounds
+    let cases = ctx.tier.pick(150, 3_000);
+    let r = par_random(ctx, "feedback-names", cases, 160, |tape, st| {
+        let mut t = Tape::new(tape);
+        let mut c = gen_case(&mut t, 3);
+        c.all = false;
+        for round in 0..3 {
+            let next = match feedback(&c, &mut t) {
+                Some(n) => n,
+                None => break,
+            };
+            if next.vertices().len() > 6 {
+                break;
+            }
+            record(&next, st);
+            st.class(&format!("feedback-round-{}", round + 1));
+            check_case(&next, false)?;
+            c = next;
+        }
+        Ok(())
+    });
+    ctx.stage("vertex-names-fed-back-from-the-output", false, r)?;
     Ok(())
 }
 
